@@ -9,6 +9,7 @@ import MotoModel.Proofs.DiskPlace
 import MotoModel.Proofs.DiskSections
 import MotoModel.Proofs.DiskPerSide
 import MotoModel.Proofs.DiskOrder
+import MotoModel.Proofs.DiskSectionsOrder
 namespace Moto.C10
 open Moto Moto.Disk
 
@@ -263,6 +264,49 @@ theorem added_files_are_appended (fl : Flavour) (w : Tape.World) (verbose : Bool
   obtain ⟨st, hst, hok, hp'⟩ := batch_prefix w verbose img srcs himg hp hs
   rw [add_on_saved fl w verbose archive img srcs himg]
   refine ⟨st.img, hok, ?_, hp'⟩
+  unfold performOn; rw [if_neg (by rw [himg.1]; omega), hst]
+
+/-- **C10 (the per-side sections of the report list exactly the files that the image holds on that side —
+    as lists, in order)**: for `--create` with any source list there is a list `placed` of (side, source),
+    a sub-sequence of the command line in its order with sides never decreasing, such that
+    * the announcements of the report — the `endFile` events of `batchEvents`, of which the printed report is
+      the replay (`C12.update_report_is_replay`), each taken with the side of the section it is printed in,
+      in the order of the report — are exactly the sources of `placed`, with their sides, in that order;
+    * side `k` of the written image holds, in catalog order, exactly the files of the sources placed on `k`,
+      in that order.
+    So section `k` of the report and side `k` of the image list the same sources in the same order. -/
+theorem report_sections_list_the_files_in_order (fl : Flavour) (w : Tape.World) (verbose : Bool) (archive : Str) (srcs : List Str)
+    (hs : ∀ src ∈ srcs, CleanSrc src) :
+    ∃ (img : Image) (placed : List (Nat × Str)), ImgOk img
+      ∧ (create fl w verbose archive srcs).writes = [(archive, save fl img)]
+      ∧ (placed.map (·.2)).Sublist srcs ∧ (placed.map (·.1)).Pairwise (· ≤ ·) ∧ (∀ p ∈ placed, p.1 < 4)
+      ∧ storedOn 0 (batchEvents w srcs ((List.replicate 4 blankSide).map initFileSystem)) = placed.map (fun p => (p.1, evSrc w p.2))
+      ∧ ∀ k, k < 4 → FilesOf w (sideList (img.getD k [])) ((placed.filter (fun p => p.1 == k)).map (·.2)) := by
+  have hp0 : AllPrefix ((List.replicate 4 blankSide).map initFileSystem) := by
+    intro k hk
+    rw [fresh_getD k hk]
+    exact ⟨0, by omega, fresh_seq⟩
+  obtain ⟨st, placed, hst, hok, _, h4, h5, h6, h7, h8⟩ := performCore_ordered_ev w verbose _ srcs fresh_img_ok hp0 hs
+  refine ⟨st.img, placed, hok, ?_, h4, h5, h6, h8, ?_⟩
+  · unfold create performOn; rw [if_neg (by simp), hst]
+  · intro k hk
+    obtain ⟨fs, hfs, hall⟩ := h7 k hk
+    rw [fresh_getD k hk, sideList_fresh, List.nil_append] at hfs
+    rw [hfs]; exact hall
+
+/-- … and for `--add` on the archive of an image whose catalogs have no hole: the sections list, in order,
+    the sources whose files each side gains after the files it held -/
+theorem add_report_sections_list_the_files_in_order (fl : Flavour) (w : Tape.World) (verbose : Bool) (archive : Str) (img : Image)
+    (srcs : List Str) (himg : ImgOk img) (hp : ∀ k, k < 4 → ∃ n, n ≤ 112 ∧ Seq n (img.getD k [])) (hs : ∀ src ∈ srcs, CleanSrc src) :
+    ∃ (img' : Image) (placed : List (Nat × Str)), ImgOk img'
+      ∧ (add fl w verbose archive (save fl img) srcs).writes = [(archive, save fl img')]
+      ∧ (placed.map (·.2)).Sublist srcs ∧ (placed.map (·.1)).Pairwise (· ≤ ·) ∧ (∀ p ∈ placed, p.1 < 4)
+      ∧ storedOn 0 (batchEvents w srcs img) = placed.map (fun p => (p.1, evSrc w p.2))
+      ∧ ∀ k, k < 4 → ∃ fs, sideList (img'.getD k []) = sideList (img.getD k []) ++ fs
+          ∧ FilesOf w fs ((placed.filter (fun p => p.1 == k)).map (·.2)) := by
+  obtain ⟨st, placed, hst, hok, _, h4, h5, h6, h7, h8⟩ := performCore_ordered_ev w verbose img srcs himg hp hs
+  rw [add_on_saved fl w verbose archive img srcs himg]
+  refine ⟨st.img, placed, hok, ?_, h4, h5, h6, h8, h7⟩
   unfold performOn; rw [if_neg (by rw [himg.1]; omega), hst]
 
 end Moto.C10
